@@ -106,6 +106,36 @@ func runC12(c *core.Ctx, r *core.Result) {
 			w.Close()
 		}
 	}
+	// the same scenarios with the scenario block being the FIRST block of the next rule set (the activation height itself):
+	// 2.0 (staking records appear), developer rewards (1% band -> 10% band), 2.0.2 (10% -> 25% band, out-of-band asset recorded as 0)
+	for _, era := range []drive.Era{seqBoundary(drive.StV4), c12DevBoundary(), seqBoundary(drive.StV20Dev)} {
+		era.Name += "-is-the-scenario-block"
+		var w *World
+		for _, sc := range c12Scenarios(era, false) {
+			idx++
+			if !c.Mine(idx) && c.Only == "" {
+				continue
+			}
+			key := era.Name + "/" + sc.name
+			if !c.Want(key) {
+				continue
+			}
+			if c.Expired() {
+				r.Capped("deadline before " + key)
+				if w != nil {
+					w.Close()
+				}
+				return
+			}
+			if w == nil {
+				w = MustWorld(era, FundStd)
+			}
+			c12One(c, r, w, era, sc, key, false)
+		}
+		if w != nil {
+			w.Close()
+		}
+	}
 	// the same scenarios with the scenario block ON a staking-snapshot height (432), where the
 	// pipeline looks up fall-back rates for the holder payouts
 	for _, st := range []int{drive.StV20Dev, drive.StV202, drive.StPIP10} {
@@ -255,6 +285,14 @@ func tickerName(i int) string {
 	return "p" + opr.V5Assets[i]
 }
 
+// c12DevBoundary: 2.0 with the developer-reward / staking-signature activation on the scenario block (Base+6).
+func c12DevBoundary() drive.Era {
+	e := drive.EraStage(drive.StV20)
+	e.DevRewards, e.SprSig = e.Base+6, e.Base+6
+	e.Name += ">next@6"
+	return e
+}
+
 func c12One(c *core.Ctx, r *core.Result, w *World, era drive.Era, sc c12Scenario, key string, retried bool) {
 	r.Eval()
 	r.NonTrivial(key)
@@ -264,6 +302,9 @@ func c12One(c *core.Ctx, r *core.Result, w *World, era drive.Era, sc c12Scenario
 	conv := b.Tx(KA, kit.Conversion(AddrA, "pUSD", 5e8, "pEUR"))
 	b.Add(drive.BlockSpec{Rates: R1(), OPRPayTo: kit.AddrStr(KM), TX: []fake.Entry{conv}})
 	h := b.Next()
+	if strings.HasSuffix(era.Name, "-is-the-scenario-block") && h != era.Base+6 {
+		panic(fmt.Sprintf("harness: C12 %s: the scenario block is %d, the activation %d", era.Name, h, era.Base+6))
+	}
 	s := drive.BlockSpec{OPRPayTo: kit.AddrStr(KM)}
 	ver := era.OPRVersion(h)
 	nAssets := kit.AssetCount(ver)
